@@ -146,7 +146,7 @@ struct WorldP : World {
   }
 
   void finish() override {
-    for (auto &x : k->listdir(md + "/tmp")) (void)x;
+    if (plan->knobs.getb("nojudge", false)) { res->nontrivial = !rx.empty(); if (!daemon_done) violate("C20.server-hung", "POP3 server still running"); Hash64 h9; h9.str(rx); res->state_hash = h9.get(); return; }
     std::vector<std::string> rep; size_t n = complete_replies(rx, cmds, popup, &rep);
     res->nontrivial = n > 1;
     std::string tr; for (size_t q = 0; q < cmds.size() && q < 12; q++) tr += "[" + printable(cmds[q], 30) + "]";
